@@ -232,7 +232,7 @@ h("c16_receive_all_vs_decoder_q", "phy_mod.rs", PM, ["C16"], panic_props=["C16",
   bounds="ANY buffer content of 0..=7 bytes (up to 7 telegrams), one receive_all_telegrams call; unwind 10",
   obligation="handed-over telegrams == iterated decoder (in order, once each), is_last iff nothing buffered behind, result forwarded iff last flagged, undecodable data discarded entirely, incomplete telegram untouched")
 h("c16_receive_all_vs_decoder_t", "phy_mod.rs", PM, ["C16"], panic_props=["C16", "C05"], tier="thorough", timeout_s=7200, mem_gb=16, weight=4, functions=PHF,
-  bounds="ANY buffer content of 0..=16 bytes; unwind 20", obligation="as _q")
+  bounds="ANY buffer content of 0..=12 bytes (up to 12 telegrams); unwind 16", obligation="as _q")
 h("c16_receive_one_vs_decoder_q", "phy_mod.rs", PM, ["C16"], panic_props=["C16", "C05"], timeout_s=900, functions=PHF,
   bounds="ANY buffer content of 0..=9 bytes, one receive_telegram call; unwind 12", obligation="first telegram handed over once, exactly its bytes dropped; garbage discarded; incomplete untouched; pending count == buffered bytes")
 h("c16_chunked_stream_q", "phy_mod.rs", PM, ["C16"], panic_props=["C16", "C05"], timeout_s=1800, mem_gb=12, weight=3, functions=PHF + ["TelegramTx::* (real encoder builds the stream)"],
@@ -249,10 +249,10 @@ h("c01_rate_table", "fdl_parameters.rs", PAV, ["C01"], timeout_s=900, functions=
   bounds="ALL 11 baud rates (symbolic), bit counts 0..=64", obligation="to_rate == reference table; floor conversion exact for small bit counts at every rate (33-bit pause, 11-bit character)")
 for b in BAUDS:
     h("c01_bits_to_time_" + b, "fdl_parameters.rs", PAV, ["C01"], tier="quick" if b in QUICK_BAUDS else "thorough", timeout_s=900,
-      functions=["Baudrate::{bits_to_time,to_rate}"], bounds="baud rate %s, ALL bit counts 0..=2^25" % b,
+      functions=["Baudrate::{bits_to_time,to_rate}"], bounds="baud rate %s, ALL bit counts 0..=%s" % (b, "2^25" if b in ("b9600", "b19200") else "2^17 (the full range 2^25 gave no verdict within 15 min at this rate)"),
       obligation="floor conversion in exact arithmetic: t*rate <= bits*10^6 < (t+1)*rate")
-    h("c01_tto_stagger_" + b, "fdl_parameters.rs", PAV, ["C01", "C06"], tier="thorough", timeout_s=3600, mem_gb=10, weight=2,
-      functions=["Parameters::{token_lost_timeout,slot_time,bits_to_time}", "min_slot_bits"], bounds="baud rate %s, ALL slot_bits >= the baud's minimum, ALL adjacent address pairs (a, a+1), a <= 124" % b,
+    h("c01_tto_stagger_" + b, "fdl_parameters.rs", PAV, ["C01", "C06"], tier="quick" if b in ("b19200", "b500000") else "thorough", timeout_s=1800, mem_gb=10, weight=2,
+      functions=["Parameters::{token_lost_timeout,slot_time,bits_to_time}", "min_slot_bits"], bounds="baud rate %s, slot_bits in {the baud's minimum, 100, 300, 500, 1000, 4095, 8191, 16383} (concrete; symbolic slot_bits x symbolic address gave no verdict within an hour), ALL adjacent address pairs (a, a+1), a <= 124" % b,
       obligation="TTO(a) >= 6 slot times; 2 slot times <= TTO(a+1) - TTO(a) <= 2 slot times + 2 us (any pair a < b by induction)")
 h("c03_watchdog_factors", "fdl_parameters.rs", PAV, ["C03"], timeout_s=1800, mem_gb=10, weight=2, functions=["ParametersBuilder::watchdog_timeout", "watchdog_factors", "Parameters::watchdog_timeout"],
   bounds="ALL timeouts 10 ms ..= 650 s at microsecond resolution; factor search loop fully unwound (unwind 258)", obligation="factors in 1..=255, f1*f2*10 ms >= floor(timeout/10 ms)*10 ms, reported time == f1*f2*10 ms")
@@ -351,11 +351,12 @@ PROPERTIES = {
         "outside": ["histories are covered by induction over Inv_DP, not enumerated; triples of requests beyond the Offline case"],
     },
     "C01": {
-        "claim": "Per-station level (DESIGN §4 C01, §5): for EVERY station state of each of the eight state variants under Inv_FDL, every `now`, every PHY busy flag and every receive buffer content within the bounds, ONE real poll() starts at most one transmission; none while a transmission is (believed to be) in progress; none in a poll in which newly received bytes became visible; every transmission starts more than 33 bit times after the station's last recorded bus activity (exact arithmetic up to 1 us); the own transmission is accounted as bus activity to its last bit; a transmission only happens in a permitted role for the state (token holder; repetition of the own pass after a silent slot; status reply to the pending requester; claim after TTO of silence) with bytes of the matching kind. Pure lemmas for all 11 baud rates: bit/time conversion error < 1 us and monotone; token-lost time-outs of distinct addresses are staggered by >= 2 slot times per address step. The ring-level statement (no two stations transmit at once) is NOT decided: it composes these obligations with single-token-ness (paper argument).",
+        "claim": "Per-station level (DESIGN §4 C01, §5): for EVERY station state of each of the eight state variants under Inv_FDL, every `now`, every PHY busy flag and every receive buffer content within the bounds, ONE real poll() starts at most one transmission; none while a transmission is (believed to be) in progress; none in a poll in which newly received bytes became visible; every transmission starts more than 33 bit times after the station's last recorded bus activity (exact arithmetic up to 1 us); the own transmission is accounted as bus activity to its last bit; a transmission only happens in a permitted role for the state (token holder; repetition of the own pass after a silent slot; status reply to the pending requester; claim after TTO of silence) with bytes of the matching kind. Pure lemmas for all 11 baud rates: bit/time conversion error < 1 us (all bit counts up to 2^25 at 9.6/19.2 kbit/s, up to 2^17 at the other rates); token-lost time-outs of adjacent addresses are staggered by 2 slot times (+ at most 2 us) for eight concrete slot times between the rate's minimum and 16383 bit. The ring-level statement (no two stations transmit at once) is NOT decided: it composes these obligations with single-token-ness (paper argument).",
         "assumptions": ["per-station obligations only; ring-level collision freedom rests on the single-token argument of DESIGN §5",
                         "step harnesses: baud 500 kbit/s (all eight state variants) plus 19.2 / 45.45 kbit/s variants of five steps (rounding of every conversion), Tslot 300 bit, TTR 32436 bit fixed; timestamps in [0, 2^40) us",
                         "TokenRing mutators abstracted by recorded calls + arbitrary new ring view (L1 lemmas); PHY receive helpers by their contract (C16)"],
-        "outside": ["global (multi-station) collision freedom and its timing; cold-start claim race and stale PHY buffers (excluded by the property)"],
+        "outside": ["global (multi-station) collision freedom and its timing; cold-start claim race and stale PHY buffers (excluded by the property)",
+                    "bit/time conversion for bit counts above 2^17 at rates other than 9.6/19.2 kbit/s and the token-lost stagger for slot times other than the eight listed ones (64-bit multiply/divide equivalences with both operands symbolic gave no verdict within an hour)"],
     },
     "C02": {
         "claim": "LAS algebra + per-station level: (L1) the real bitvec TokenRing methods agree with a 128-bit reference model on bounded LAS populations, and the model satisfies the ring lemmas (a pass removes exactly the jumped-over addresses and adds the sender; three rotations of a 2..5 station ring yield a valid LAS equal to the ring with NS/PS the cyclic neighbours; stability under in-order passes); (L2) every station state reports exactly the witnessed token passes, in order, to its ring view, answers 'ready' only with a valid view and only to PS, adopts a ready GAP responder as NS, and after claiming regards its view as valid and scans the full GAP. The multi-station convergence bound and joint agreement are NOT decided.",
@@ -415,9 +416,9 @@ PROPERTIES = {
         "outside": ["builder layouts with several parameters / bit fields sharing a byte / Enum constraints (a two-parameter builder harness ran out of memory in CBMC's propositional reduction; the per-parameter write is covered completely by c20_kernel)"],
     },
     "C16": {
-        "claim": "Bounded: for EVERY buffer content up to 7 (quick) / 16 (thorough) bytes the real helper methods hand over exactly the telegrams the decoder finds one after the other - in order, once, flagged last iff nothing is buffered behind - drop exactly their bytes, discard undecodable data entirely and never touch a still incomplete telegram (the helpers keep no state of their own, so chunking independence follows); additionally shown directly for 2-telegram streams from the real encoder cut at any position; garbage followed by a separately arriving telegram is received correctly. This is also the contract the telegram-level PHY (TPhy) of the station harnesses models.",
+        "claim": "Bounded: for EVERY buffer content up to 7 (quick) / 12 (thorough) bytes the real helper methods hand over exactly the telegrams the decoder finds one after the other - in order, once, flagged last iff nothing is buffered behind - drop exactly their bytes, discard undecodable data entirely and never touch a still incomplete telegram (the helpers keep no state of their own, so chunking independence follows); additionally shown directly for 2-telegram streams from the real encoder cut at any position; garbage followed by a separately arriving telegram is received correctly. This is also the contract the telegram-level PHY (TPhy) of the station harnesses models.",
         "assumptions": ["harness PHY (KPhy) as the byte buffer; SimulatorPhy (Arc<Mutex<Vec>>, a test double) is not encoded"],
-        "outside": ["SimulatorPhy; streams of more than 16 buffered bytes; SD2/SD3 frames in the chunking harness (covered by the arbitrary-buffer harnesses up to 16 bytes)"],
+        "outside": ["SimulatorPhy; streams of more than 12 buffered bytes; SD2/SD3 frames in the chunking harness (covered by the arbitrary-buffer harnesses up to 12 bytes)"],
     },
     "C17": {
         "claim": "Bounded: for every diagnostics reply (PDU <= 10 / 40 bytes) the reported flags, ident number and master address equal the reply bytes; extended diagnostics are stored iff flagged, a buffer exists and they fit, otherwise the stored ones are unchanged; iterating ANY stored byte string (<= 8 / 24 bytes) terminates without panic within length+1 calls, yields exactly the blocks an independent reference parser finds (type, position, length, decoded fields), and yields nothing after the first malformed block; also with no buffer attached, with logging enabled.",
